@@ -16,7 +16,9 @@ from ..cat_logic import L as LOGIC
 from ..bench import Bench
 
 PROP = 'C11'
-RULE = ('stratum histories: case = list of construction calls with small name pools so that conflicts occur; non-trivial '
+RULE = ('stratum histories: case = list of construction calls (wires, children, library leaves, leaves inheriting their '
+        'behaviour from a base class or mixin, structural blocks, renames, extra ports, drivers removed in place, integrity '
+        'checks in the middle of the history) with small name pools so that conflicts occur; non-trivial '
         'iff the history contains >= 1 provoked conflict and >= 1 accepted block. Stratum blocks: case = (catalogue block, '
         'configuration, fault in {none, one input driver removed, one input driver duplicated, output driver duplicated}); '
         'non-trivial iff a fault is injected. Distinct by JSON hash.')
@@ -33,6 +35,32 @@ NAMES = ['a', 'b', 'c', 'd']
 class Wrap(Logic):
     def __init__(self, parent, name):
         super().__init__(parent, name)
+
+
+class DerivedBuf(py4hw.Buf):
+    """a leaf that inherits its behaviour: only the constructor is specialised"""
+
+    def __init__(self, parent, name, a, r):
+        super().__init__(parent, name, a, r)
+        self.tag = 'derived'
+
+
+class _PassMixin:
+    def propagate(self):
+        self.r.put(self.a.get())
+
+
+class MixinLeaf(_PassMixin, Logic):
+    """behaviour supplied by a mixin"""
+
+    def __init__(self, parent, name, a, r):
+        super().__init__(parent, name)
+        self.a = self.addIn('a', a)
+        self.r = self.addOut('r', r)
+
+
+class DerivedReg(py4hw.Reg):
+    pass
 
 
 def undriven_ports(obj, acc=None):
@@ -125,6 +153,55 @@ def run_history(case):
                 w_info[oi]['driver'] = obj
                 m_children[pi][name] = obj
                 accepted_blocks += 1
+            elif kind == 'derived':
+                # like 'gate', with leaves whose clock / propagate is inherited from a base class or a mixin
+                if not wires:
+                    continue
+                pi, name = op[1] % len(parents), 'v' + NAMES[op[2] % len(NAMES)]
+                a = wires[op[4] % len(wires)]
+                oi = op[5] % len(wires)
+                out = wires[oi]
+                dup_name = name in parents[pi].children
+                driven = w_info[oi]['driver'] is not None or out.getSource() is not None
+                expect_raise = dup_name or driven
+                why = 'duplicate child name' if dup_name else 'second driver on a wire'
+                cls = [DerivedBuf, MixinLeaf, DerivedReg][op[3] % 3]
+                obj = cls(parents[pi], name, a, out)
+                w_info[oi]['driver'] = obj
+                m_children[pi][name] = obj
+                accepted_blocks += 1
+                tags.add('derived_leaf')
+            elif kind == 'check':
+                # integrity verdict in the middle of the history (and again at the end)
+                bad_now = undriven_ports(sysm)
+                try:
+                    py4hw.debug.checkIntegrity(sysm)
+                    v = False
+                except Exception:
+                    v = True
+                if v != bool(bad_now):
+                    if bad_now:
+                        return fail('integrity_accepts_undriven|mid_history', 'step {}: checkIntegrity accepted a hierarchy in which {} is attached to an undriven wire ; history {}'.format(
+                            step, bad_now[0].getFullPath(), case['ops'][:step + 1]), cls=sorted(tags))
+                    return fail('integrity_rejects_driven|mid_history', 'step {}: checkIntegrity raised although every port wire has a driver ; history {}'.format(
+                        step, case['ops'][:step + 1]), cls=sorted(tags))
+                tags.add('checked_mid_history')
+                continue
+            elif kind == 'remove':
+                # a driver is removed in place (block replaced: `w.source = None; del parent.children[name]`, the idiom of
+                # the repository's hardware-in-the-loop tests); the wire is undriven again and may take a new driver
+                cands = [(pi, nm, o) for pi in sorted(m_children) for nm, o in sorted(m_children[pi].items())
+                         if not isinstance(o, Wrap) and any(inf['driver'] is o for inf in w_info)]
+                if not cands:
+                    continue
+                pi, nm, obj = cands[op[1] % len(cands)]
+                for wi, inf in enumerate(w_info):
+                    if inf['driver'] is obj:
+                        wires[wi].source = None
+                        inf['driver'] = None
+                del parents[pi].children[nm]
+                del m_children[pi][nm]
+                tags.add('driver_removed_in_place')
             elif kind == 'structural':
                 if not wires:
                     continue
@@ -306,6 +383,9 @@ def _op():
         st.tuples(st.just('reparentAndRename'), i, i, i).map(list),
         st.tuples(st.just('port'), i, i, i).map(list),
         st.tuples(st.just('dupout'), i, i).map(list),
+        st.tuples(st.just('derived'), i, i, i, i, i).map(list),
+        st.tuples(st.just('check')).map(list),
+        st.tuples(st.just('remove'), i).map(list),
     )
 
 
